@@ -13,6 +13,8 @@ compile_error!("Cloud servers are not available on WASM targets");
 mod iter;
 mod server;
 mod service;
+#[cfg(gothenburgbitfactory_taskchampion_verif)]
+pub(crate) mod verif;
 
 pub(in crate::server) use server::CloudServer;
 
